@@ -171,13 +171,24 @@ impl BaseGrid {
         let bands = header[6] as usize;
         let rows = ((lat_s - lat_n) / dlat + 1.5).floor() as usize;
         let cols = ((lon_e - lon_w) / dlon + 1.5).floor() as usize;
-        let elements = rows * cols * bands;
+        // A malformed header (e.g. a zero or non-finite step) may give absurd row and
+        // column counts: an overflowing product is just another malformed grid
+        let elements = rows
+            .checked_mul(cols)
+            .and_then(|e| e.checked_mul(bands))
+            .unwrap_or(0);
 
         let offset = offset.unwrap_or(0);
 
         let grid = Vec::from(grid.unwrap_or(&[]));
 
-        if elements == 0 || (offset == 0 && elements > grid.len()) || bands < 1 {
+        // Interpolation needs at least 2 rows and 2 columns
+        if elements == 0
+            || rows < 2
+            || cols < 2
+            || (offset == 0 && elements > grid.len())
+            || bands < 1
+        {
             return Err(Error::General("Malformed grid"));
         }
 
